@@ -148,12 +148,12 @@ Definition segs_of (labels : list Z) (slices bbox : list slice) (areas : list Z)
 (* ---------- state ---------- *)
 Inductive key := KLabels | KNLabels | KMaxLabel | KRaw | KSlices | KNdim | KShape | KBbox
   | KAreas | KBgArea | KIsConsec | KMissing | KDataMa | KGeo | KPolygons | KSegments
-  | KDebLabels | KDebMap | KDebInv.
+  | KDebLabels | KDebMap | KDebInv | KCmap.
 Definition key_eq_dec : forall a b : key, {a = b} + {a <> b}.
 Proof. decide equality. Defined.
 Definition all_keys := [KLabels; KNLabels; KMaxLabel; KRaw; KSlices; KNdim; KShape; KBbox;
   KAreas; KBgArea; KIsConsec; KMissing; KDataMa; KGeo; KPolygons; KSegments;
-  KDebLabels; KDebMap; KDebInv].
+  KDebLabels; KDebMap; KDebInv; KCmap].
 Definition is_deb (k : key) : bool :=
   match k with KDebLabels | KDebMap | KDebInv => true | _ => false end.
 
@@ -203,6 +203,7 @@ Definition fresh (c : core) (k : key) : value :=
   | KDebLabels => VL (deb_labels (c_dmap c))
   | KDebMap => VPairs (deb_map (c_dmap c))
   | KDebInv => VMap (c_dmap c)
+  | KCmap => VZ (if f_nlabels c =? 0 then -1 else f_max c + 1)   (* number of colours; -1 = None *)
   end.
 
 (* ---------- attribute reads (astropy lazyproperty = memo on __dict__) ---------- *)
@@ -259,6 +260,11 @@ Definition rd_segments : M := memo KSegments (fun s =>
 Definition rd_deblabels : M := memo KDebLabels (fun s => (VL (deb_labels (c_dmap (st s))), s)).
 Definition rd_debmap : M := memo KDebMap (fun s => (VPairs (deb_map (c_dmap (st s))), s)).
 Definition rd_debinv : M := memo KDebInv (fun s => (VMap (c_dmap (st s)), s)).
+(* cmap -> make_cmap: the argument self.max_label + 1 is evaluated first, then
+   _make_cmap tests self.nlabels == 0 (None) *)
+Definition rd_cmap : M := memo KCmap (fun s =>
+  let '(m, s1) := rd_max s in let '(n, s2) := rd_nlabels s1 in
+  (VZ (if asZ n =? 0 then -1 else asZ m + 1), s2)).
 Definition rd (k : key) : M :=
   match k with
   | KLabels => rd_labels | KNLabels => rd_nlabels | KMaxLabel => rd_max | KRaw => rd_raw
@@ -266,6 +272,7 @@ Definition rd (k : key) : M :=
   | KAreas => rd_areas | KBgArea => rd_bg | KIsConsec => rd_isconsec | KMissing => rd_missing
   | KDataMa => rd_datama | KGeo => rd_geo | KPolygons => rd_polygons | KSegments => rd_segments
   | KDebLabels => rd_deblabels | KDebMap => rd_debmap | KDebInv => rd_debinv
+  | KCmap => rd_cmap
   end.
 
 (* ---------- mutators ---------- *)
@@ -429,8 +436,9 @@ Definition keys_agree (s : state) (obs : list key) : bool :=
           all_keys.
 
 (* what the implementation showed after one step: outcome code, value read, label array
-   (flattened), cached keys, deblend map *)
-Definition expect := (Z * option value * list Z * list key * dmap_t)%type.
+   (flattened; None = identical to the array before the step), cached keys, deblend map
+   (None = identical to the map before the step) *)
+Definition expect := (Z * option value * option (list Z) * list key * option dmap_t)%type.
 (* initial object: 0 = SegmentationImage(array), 1 = detect_sources result (labels and
    slices pre-seeded), 2 = deblend_sources result (nothing cached, map given) *)
 Definition case := (Z * (Z * Z) * list Z * (Z * Z) * dmap_t * list (op * expect))%type.
@@ -447,9 +455,9 @@ Definition check_step (s : state) (oe : op * expect) : bool * state :=
   let '(out, s') := mutate o s in
   ((outcome_code out =? code)
    && opt_eqb value_eqb (if outcome_code out =? 0 then obs else None) val
-   && zlist_eqb (c_data (st s')) dat
+   && zlist_eqb (c_data (st s')) (match dat with Some d => d | None => c_data (st s) end)
    && keys_agree s' keys
-   && dmap_eqb (c_dmap (st s')) dm, s').
+   && dmap_eqb (c_dmap (st s')) (match dm with Some m => m | None => c_dmap (st s) end), s').
 Fixpoint check_steps (s : state) (l : list (op * expect)) : bool :=
   match l with
   | [] => true
